@@ -55,9 +55,34 @@ func (ex *Exec) fillModel(v *Violation) {
 	for _, n := range ex.nondets {
 		v.Nondets = append(v.Nondets, NondetVal{Label: n.Label, Val: vals[n.T.id], W: n.T.w})
 	}
+	v.Threads = ex.threadDump()
 	v.Decisions = append([]Decision{}, ex.decisions...)
 	v.Actions = append([]string{}, ex.actions...)
 	v.Observes = append([]string{}, ex.observes...)
+}
+
+func (ex *Exec) threadDump() []string {
+	var out []string
+	for _, t := range ex.threads {
+		st := [...]string{"runnable", "blocked", "sleeping", "done"}[t.state]
+		if t.state == tDone {
+			continue
+		}
+		where := ""
+		for i := len(t.frames) - 1; i >= 0 && i >= len(t.frames)-4; i-- {
+			fr := t.frames[i]
+			pos := ""
+			if fr.pc < len(fr.block.Instrs) {
+				p := ex.eng.prog.Fset.Position(fr.block.Instrs[fr.pc].Pos())
+				if p.IsValid() {
+					pos = fmt.Sprintf(":%d", p.Line)
+				}
+			}
+			where += " < " + fr.fn.String() + pos
+		}
+		out = append(out, fmt.Sprintf("T%d %s(%s)%s", t.id, st, t.waitWhat, where))
+	}
+	return out
 }
 
 // violationNoAssert is used for violations that are not assertion failures
@@ -331,6 +356,10 @@ func init() {
 	V["verifWorkflowID"] = func(ex *Exec, th *Thread, fn *ssa.Function, a []Value) (Value, bool) {
 		k := ex.cint(a[0], "wfid")
 		return strV{s: fmt.Sprintf("wf-%d", k)}, false
+	}
+	V["verifIdentity"] = func(ex *Exec, th *Thread, fn *ssa.Function, a []Value) (Value, bool) {
+		cls := ex.cint(a[0], "cls")
+		return tupleV{strV{s: fmt.Sprintf("ns%d", cls/2)}, strV{s: fmt.Sprintf("wf%d", cls%2)}}, false
 	}
 	V["verifWorkflowIDForShard"] = func(ex *Exec, th *Thread, fn *ssa.Function, a []Value) (Value, bool) {
 		k := ex.cint(a[0], "wfid")
